@@ -91,6 +91,7 @@ def ops_for(r: fr.RefAction, full: bool, step: int):
         out.append(["transform", [2, 3], "t", 0, ["s", "r"]])
         out.append(["transform", [2], "t", 0, None])
     labelled = all(r.labels[d] is not None for d in r.dims)
+    used = set(getattr(r, "used", set(r.dims)))
     if nodims >= 1:
         for name in fr.NPBIN:
             out.append([name, 2])
@@ -98,9 +99,9 @@ def ops_for(r: fr.RefAction, full: bool, step: int):
             out.append([name, "diffcoords", list(ish)])
             if nodims >= 2 and labelled:
                 out.append([name, "drop-first-dim", list(ish)])
-            if labelled and "w" not in r.dims and (full or name in ("subtract", "divide")):
+            if labelled and "w" not in used and (full or name in ("subtract", "divide")):
                 out.append([name, "extra-dim", list(ish)])
-        if labelled and "w" not in r.dims:
+        if labelled and "w" not in used:
             out.append(["broadcast", "extra-dim", list(ish)])
             out.append(["join", "newlabels-first", r.dims[0], None, list(ish)])
             if "j" not in r.dims:
@@ -144,6 +145,8 @@ def programs(ctx):
                             r2 = fr.apply_ref(r, op, None)
                         except Exception as e:
                             raise common.HarnessError(f"reference failed on {ops + [op]}: {e!r}")
+                        # names of dimensions that ever existed: a squeezed one leaves a scalar coordinate behind
+                        r2.used = set(getattr(r, "used", set(r.dims))) | set(r2.dims)
                         progs.append({"shape": list(shape), "ishape": list(ish), "ops": ops + [op]})
                         nxt.append((ops + [op], r2))
                 level = nxt
@@ -189,7 +192,10 @@ def run_program(prog):
     except Exception as e:
         return [({"monitor": "graph_evaluation_raised", "cause": f"{prog['ops'][-1][0]}: {type(e).__name__}"}, f"{prog}: {e!r}"[:500], prog)]
     last = prog["ops"][-1]
-    diff = fr.compare(got, r, check_order=last[0] in ORDER_OPS and last[0] != "broadcast")
+    # a batched std is computed from batch means of squares: on (nearly) constant data the difference of two almost equal
+    # numbers goes through a square root, which turns a rounding error of 1e-16 into 1e-8 -- floating point, not a defect
+    n_std = sum(1 for o in prog["ops"] if o[0] == "std" or (o[0] == "reduce_default_dim" and o[1] == "std"))
+    diff = fr.compare(got, r, check_order=last[0] in ORDER_OPS and last[0] != "broadcast", atol=1e-6 if n_std >= 2 else 1e-9)
     if diff:
         kind = "values" if diff.startswith("value at") else ("coordinates" if diff.startswith("coordinates") else "dimensions")
         detail = ""
